@@ -12,7 +12,7 @@ use std::collections::{BTreeMap, BTreeSet};
 #[derive(Clone)]
 pub struct Monitors {
     /// calls a connection has made and not yet seen answered: (caller, serial)
-    pending_calls: BTreeSet<(Cid, u32)>,
+    pending_calls: BTreeMap<(Cid, u32), u32>,
     /// per connection: bus-event bookkeeping for the ordering clauses of C10
     created: BTreeMap<Cid, BTreeSet<Vec<Atom>>>,
     destroyed: BTreeMap<Cid, BTreeSet<Vec<Atom>>>,
@@ -60,7 +60,7 @@ fn atom_d(a: &[Atom], i: usize) -> Option<u8> {
 impl Default for Monitors {
     fn default() -> Self {
         Self {
-            pending_calls: BTreeSet::new(),
+            pending_calls: BTreeMap::new(),
             created: BTreeMap::new(),
             destroyed: BTreeMap::new(),
             finished: BTreeSet::new(),
@@ -89,7 +89,7 @@ impl Monitors {
             k::CALL_FUNCTION | k::CALL_FUNCTION2 => {
                 if let Some(s) = atom_v(&m.atoms, 0) {
                     if m.kind == k::CALL_FUNCTION || model.minor(c) >= 19 {
-                        self.pending_calls.insert((c, s));
+                        *self.pending_calls.entry((c, s)).or_insert(0) += 1;
                     }
                 }
             }
@@ -155,7 +155,11 @@ impl Monitors {
                 k::CALL_FUNCTION_REPLY => {
                     self.counts.replies_checked += 1;
                     let s = atom_v(&m.atoms, 0).unwrap_or(u32::MAX);
-                    if !self.pending_calls.remove(&(c, s)) {
+                    let open = self.pending_calls.get(&(c, s)).copied().unwrap_or(0);
+                    if open > 0 {
+                        self.pending_calls.insert((c, s), open - 1);
+                    }
+                    if open == 0 {
                         return Err((
                             "reply-without-pending-call".to_string(),
                             format!("connection c{c} received {} but has no unanswered call with that serial (duplicate or misrouted reply)", sym::render(m)),
@@ -272,7 +276,7 @@ impl Monitors {
         let started: BTreeSet<U> = model.listeners.iter().filter(|(_, l)| l.scope.is_some()).map(|(k, _)| *k).collect();
         self.finished.retain(|(_, l)| started.contains(l));
         // forget pending calls of callers that are gone (they are exempt)
-        self.pending_calls.retain(|(c, _)| model.is_live(*c));
+        self.pending_calls.retain(|(c, _), _| model.is_live(*c));
         // channels created receiver-first carry their initial grant from creation
         for (ch, c) in &model.chans {
             if !self.granted.contains_key(ch) {
